@@ -421,6 +421,27 @@ def r3_r4_repetition(ctx):
                     names = [e["name"] for e in a["pl"]["p"] if isinstance(e, dict) and "f" in e]
                     if names and a["pl"]["l"] == 1:
                         reads.add(".".join(names))
+    # values flowing into the region from outside: the receiver and the distance from the root (the parity of the contempt sign) only
+    from ..slice import _rv_locals, _operand_locals
+    names = f.get("names") or {}
+    params_read, defined = set(), set()
+    for x in sorted(region):
+        for s in f["blocks"][x]["stmts"]:
+            params_read |= _rv_locals(s["rv"])
+            if s["dst"] is not None:
+                defined.add(s["dst"]["l"])
+        tt = f["blocks"][x]["term"]
+        if tt["k"] == "call":
+            for a in tt["args"]:
+                params_read |= _operand_locals(a)
+            defined.add(tt["dest"]["l"])
+        elif tt["k"] == "switch":
+            params_read |= _operand_locals(tt["discr"])
+    params_read -= defined
+    foreign = sorted(names.get(str(l), "_%d" % l) for l in params_read if names.get(str(l)) not in ("self", "ply_depth_from_root"))
+    ctx.ob("C10.R3", "negamax|repetition-value-parameters", not foreign,
+           "" if not foreign else "the repetition value depends on %s of search_negamax: it must be the draw score with the contempt offset signed by the distance from the root only (a value that follows the colour, the window or the hash is not a fixed offset from the draw score)" % foreign,
+           ctx.where(f, f["blocks"][arm]["term"]["line"]), sample={"parameters_read": sorted(names.get(str(l), str(l)) for l in params_read)})
     ok = all(r.startswith("options.") or r.startswith("heuristic") for r in reads)
     ctx.ob("C10.R3", "negamax|repetition-value-reads", ok, "" if ok else "the repetition value reads engine state %s" % sorted(reads),
            ctx.where(f, f["blocks"][arm]["term"]["line"]), sample={"self_fields_read": sorted(reads)})
